@@ -27,6 +27,9 @@ class PolyplyParser(ITPDirector):
     def __init__(self, force_field):
         super().__init__(force_field)
         self.citations = set()
+        # the links defined by the file that is parsed; links that
+        # other input files added to the force field are left alone
+        self.links = []
 
     @SectionLineParser.section_parser('moleculetype', 'citation')
     def _parse_citation(self, line, lineno=0):
@@ -66,7 +69,7 @@ class PolyplyParser(ITPDirector):
         adds version tags for all interactions within a
         :class:`vermouth.molecule.Link` that are applied to the same atoms.
         """
-        for link in self.force_field.links:
+        for link in self.links:
             for key in link.interactions:
                 terms = link.interactions[key]
                 count_terms = Counter(tuple(term.atoms) for term in terms)
@@ -137,6 +140,7 @@ class PolyplyParser(ITPDirector):
         for link in links:
             self._treat_link_atoms(block, link, key)
             self.force_field.links.append(link)
+            self.links.append(link)
 
     def _make_edges(self):
        for block in self.force_field.blocks.values():
@@ -144,7 +148,7 @@ class PolyplyParser(ITPDirector):
            for inter_type in inter_types:
                block.make_edges_from_interaction_type(type_=inter_type)
 
-       for link in self.force_field.links:
+       for link in self.links:
            inter_types = list(link.interactions.keys())
            for inter_type in inter_types:
                link.make_edges_from_interaction_type(type_=inter_type)
